@@ -33,11 +33,24 @@ def main():
     except SystemExit:
         raise
     except Exception:
-        traceback.print_exc()
-        print(f'[{a.pid}] INTERNAL ERROR in the checking machinery (not a verdict)', flush=True)
-        import shutil
-        shutil.rmtree(ctx.scratch, ignore_errors=True)
-        sys.exit(2)
+        # An exception of the checking machinery itself.  On the unchanged tree this never happens (every run there is part of
+        # the evidence); on a changed tree it means that a stream or an extractor could not do its work, i.e. the property is no
+        # longer shown to hold: it is reported like any other correspondence that no longer checks (VIOLATION ...
+        # no-failing-input-found, the traceback in the replay file) unless concrete failing inputs were already found.
+        tb = traceback.format_exc()
+        sys.stderr.write(tb)
+        if a.replay:
+            print(f'[{a.pid}] INTERNAL ERROR in the checking machinery (not a verdict)', flush=True)
+            sys.exit(2)
+        try:
+            ctx.broken.append({'kind': 'harness', 'name': f'{a.pid}/harness-exception', 'detail': tb[-1500:]})
+            rc = ctx.finish()
+        except Exception:
+            traceback.print_exc()
+            print(f'[{a.pid}] INTERNAL ERROR in the checking machinery (not a verdict)', flush=True)
+            import shutil
+            shutil.rmtree(ctx.scratch, ignore_errors=True)
+            sys.exit(2)
     sys.exit(rc)
 
 
